@@ -570,6 +570,7 @@ package raft
 //@   ensures [answered-or-pending] Llast == old(Llast) ==> answered[configurationFuture.responseCh]
 
 //@ func Raft.RemoveServer
+//@   ensures [pending-after] Llast > old(Llast) && old(r.committedConfiguration == nil || r.committedConfiguration.Index <= Llast) ==> pendingSpec(r)
 //@   at call r.appendConfiguration assert [guard] r.state == Leader && committedThisTermSpec(r) && !pendingSpec(r)
 //@   at call r.appendConfiguration assert [delta] (forall k string :: (k in configuration.Members) == (k in r.configuration.Members && k != id)) && (forall k string :: k != id && k in r.configuration.Members ==> configuration.Members[k] == r.configuration.Members[k] && configuration.IsVoter[k] == r.configuration.IsVoter[k])
 //@   ensures [answered-or-pending] Llast == old(Llast) ==> answered[configurationFuture.responseCh]
